@@ -171,6 +171,87 @@ def symbol_cases(ctx):
     return cex, n
 
 
+# written ground terms as arguments of an atom in a body formula and in a head formula (Model/Symbols.v: in_body / create_symbol, in_head / to_term / eval)
+def wtext(w):
+    k = w[0]
+    if k == 'num':
+        return str(w[1])
+    if k == 'str':
+        return '"' + w[1].replace('\\', '\\\\').replace('"', '\\"').replace('\n', '\\n') + '"'
+    if k == 'const':
+        return w[1]
+    if k in ('inf', 'sup'):
+        return '#' + k
+    if k == 'fun':
+        return '%s(%s)' % (w[1], ','.join(wtext(x) for x in w[2]))
+    if k == 'tup':
+        return '(%s%s)' % (','.join(wtext(x) for x in w[1]), ',' if len(w[1]) == 1 else '')
+    if k == 'neg':
+        return '-' + wtext(w[1]) if w[1][0] in ('num', 'const', 'fun', 'tup', 'str', 'inf', 'sup') else '-(%s)' % wtext(w[1])
+    return '(%s %s %s)' % (wtext(w[2]), '+' if w[1] else '-', wtext(w[3]))      # (blanks: adjacent operator characters would be read as ONE theory operator)
+
+
+def wtok(w):
+    hx = lambda n: n.encode('utf-8').hex() if n else '-'
+    k = w[0]
+    if k == 'num':
+        return 'n %d' % w[1]
+    if k in ('str', 'const'):
+        return '%s %s' % (k[0], hx(w[1]))
+    if k == 'inf':
+        return 'i'
+    if k == 'sup':
+        return 'u'
+    if k == 'fun':
+        return 'f %s %d %s' % (hx(w[1]), len(w[2]), ' '.join(wtok(x) for x in w[2]))
+    if k == 'tup':
+        return ('t %d %s' % (len(w[1]), ' '.join(wtok(x) for x in w[1]))).strip()
+    if k == 'neg':
+        return 'g ' + wtok(w[1])
+    return 'b %d %s %s' % (1 if w[1] else 0, wtok(w[2]), wtok(w[3]))
+
+
+def wrandom(rng, d):
+    k = rng.random()
+    if d <= 0 or k < 0.3:
+        return rng.choice([('num', rng.randint(0, 4)), ('num', 0), ('const', rng.choice(['a', 'b', 'c1', '_x'])), ('str', rng.choice(['', 'a', 'a"b', 'x\\y', 'l\nm', '#inf', '-1', '&'])), ('inf',), ('sup',)])
+    if k < 0.5:
+        return ('fun', rng.choice(['f', 'g', 'h_1']), [wrandom(rng, d - 1) for _ in range(rng.randint(1, 3))])
+    if k < 0.65:
+        return ('tup', [wrandom(rng, d - 1) for _ in range(rng.randint(0, 3))])
+    if k < 0.82:
+        return ('neg', wrandom(rng, d - 1))
+    return ('bin', rng.random() < 0.5, wrandom(rng, d - 1), wrandom(rng, d - 1))
+
+
+WFIXED = [('neg', ('num', 1)), ('neg', ('neg', ('num', 1))), ('neg', ('const', 'a')), ('neg', ('fun', 'f', [('num', 1)])), ('neg', ('tup', [('num', 1), ('num', 2)])), ('neg', ('str', 'a')), ('neg', ('inf',)),
+          ('bin', True, ('num', 1), ('num', 2)), ('bin', False, ('num', 1), ('num', 3)), ('bin', False, ('bin', False, ('num', 2), ('num', 1)), ('num', 1)), ('bin', False, ('num', 2), ('bin', False, ('num', 1), ('num', 1))),
+          ('bin', True, ('num', 1), ('const', 'a')), ('bin', True, ('neg', ('num', 1)), ('num', 1)), ('neg', ('bin', True, ('num', 1), ('num', 1))), ('fun', 'f', [('bin', True, ('num', 1), ('str', ''))]),
+          ('tup', []), ('tup', [('num', 1)]), ('tup', [('tup', []), ('str', '')]), ('fun', 'f', [('neg', ('tup', [('num', 1), ('num', 2)]))]), ('str', 'a"b'), ('str', '\\'), ('str', '\n'), ('fun', 'f', [('str', '"')]),
+          ('bin', True, ('tup', [('num', 1)]), ('num', 1)), ('neg', ('neg', ('const', 'a'))), ('neg', ('bin', False, ('num', 1), ('num', 2)))]
+
+
+def written_term_cases(ctx):
+    rng = ctx.rng('wterms')
+    ws = list(WFIXED) + [wrandom(rng, 3) for _ in range(120 if ctx.quick else 600)]
+    texts = [wtext(w) for w in ws]
+    body = ctx.impl().run([{'cmd': 'symterms', 'terms': texts}], timeout=120)[0]
+    head = ctx.impl().run([{'cmd': 'headterms', 'terms': texts}], timeout=120)[0]
+    mod = ctx.model().run(['wsym ' + wtok(w) for w in ws], timeout=60)
+    cex = []
+    if body.get('status') != 'ok' or head.get('status') != 'ok':
+        return [{'key': 'c06:wterms', 'what': 'the term run fails: %s' % json.dumps([{k: x.get(k) for k in ('status', 'type', 'msg')} for x in (body, head)]), 'input': {'wterm': list(ws[0])}}], 0
+    for w, t, b, h, m in zip(ws, texts, body['out'], head['out'], mod):
+        wr = b.get('written', {})
+        bi = wr['items'][0][1] if wr.get('items') else 'raises'
+        mb, mh = [x.strip() for x in (m or 'error | error').split(' | ')]
+        if bi != mb:
+            cex.append({'key': 'c06:wterm-body:' + t, 'what': 'argument %s of an atom inside a body formula: create_symbol gives %s, the model (in_body, create_symbol) %s' % (t, bi, mb), 'input': {'wterm': w}})
+        elif h != mh:
+            cex.append({'key': 'c06:wterm-head:' + t, 'what': 'argument %s of an atom inside a head formula: telingo derives the atom with %s, the model (in_head, to_term, eval) %s' % (t, h, mh), 'input': {'wterm': w}})
+    return cex, len(ws)
+
+
 def run(ctx):
     S = schemata()
     rng = ctx.rng('combos')
@@ -204,6 +285,9 @@ def run(ctx):
             nontriv.add(inputs[2 * i][0])
     scex, sn = symbol_cases(ctx)
     cex += scex
+    wcex, wn = written_term_cases(ctx)
+    cex += wcex
+    sn += 2 * wn
     cov = {'evaluations': len(inputs) + sn, 'atom_argument_terms': len(SYMTERMS), 'atom_argument_theory_terms_compared': sn, 'distinct_nontrivial': len(nontriv),
            'rule': '%d rule schemata (variables, arithmetic, comparisons, pools, intervals, classical negation, primes, conditional literals, aggregates, #show/#external, variables in &tel/&del '
                    'bodies and &tel heads, element conditions, n-fold prefixes) in every applicable program part, alone and in random combinations of 2-3, over the domain {1,2}; each paired with '
@@ -214,6 +298,19 @@ def run(ctx):
 
 def replay(ctx, payload):
     inp = payload['input']
+    if 'wterm' in inp:
+        tt = lambda x: tuple(tt(y) if isinstance(y, list) and y and isinstance(y[0], str) else ([tt(z) for z in y] if isinstance(y, list) else y) for y in x)
+        global WFIXED
+        keep, WFIXED = WFIXED, [tt(inp['wterm'])]
+        try:
+            class Q:      # no random terms in a replay
+                quick = True
+                impl, model = ctx.impl, ctx.model
+                rng = staticmethod(lambda *a: __import__('random').Random(0))
+            cexs, _ = written_term_cases(Q)
+            return any(c['input'].get('wterm') == WFIXED[0] for c in cexs)
+        finally:
+            WFIXED = keep
     if 'symterm' in inp:
         global SYMTERMS
         keep, SYMTERMS = SYMTERMS, [inp['symterm']]
